@@ -124,7 +124,7 @@ func vScenarioC07(rc *runCtx) {
 	src := filepath.Join(rc.dir, "src")
 	dst := filepath.Join(rc.dir, "dst")
 	os.MkdirAll(dst, 0755)
-	mode := tp.Pick("c07.mode", 6, 2, 1, 1) // 0 collisions, 1 repeated transfer, 2 name at the length limit, 3 no fresh name left
+	mode := tp.Pick("c07.mode", 6, 2, 1, 1, 1) // 0 collisions, 1 repeated transfer, 2 name at the length limit, 3 no fresh name left, 4 a dangling symbolic link of that name
 	spec := vGenSources(rc, src, 4, cfg.dirMode, maxSize, true)
 	if tp.Bool("c07.samepath", 150) {
 		// the very same path named twice on the command line: two paths with the same base name like any others
@@ -207,6 +207,15 @@ func vScenarioC07(rc *runCtx) {
 			kinds = append(kinds, "free")
 		}
 	}
+	if mode == 4 {
+		// the destination holds a symbolic link with the incoming name that points nowhere: it exists, it is the
+		// user's, and it stays (the transfer may fail, or step aside)
+		base := filepath.Base(spec.paths[0])
+		os.Remove(filepath.Join(dst, base))
+		os.RemoveAll(filepath.Join(dst, base))
+		os.Symlink(filepath.Join(rc.dir, "no-such-target", base), filepath.Join(dst, base))
+		rc.fault("dangling-symlink-with-the-incoming-name")
+	}
 	if mode == 3 {
 		// every candidate name of the first source is taken
 		base := filepath.Base(spec.paths[0])
@@ -238,7 +247,7 @@ func vScenarioC07(rc *runCtx) {
 	rc.w.Run(x.finished)
 	rep := x.report()
 	vCheckUntouched(rc, before, dst, "first transfer")
-	if mode == 2 || mode == 3 {
+	if mode == 2 || mode == 3 || mode == 4 {
 		// the transfer may fail (no fresh name can exist); success is allowed only with a fresh name
 		if rep.clientOK || rep.serverOK {
 			vCheckFidelity(rc, x, rep, before, false)
